@@ -268,14 +268,25 @@ class CoreEval(Harness):
     loop_bound = 120
     max_paths = 400000
 
+    # proper lists (OP A B ...) up to four operands are in every tier: argument-count handling lives there
+    FOCUS = [['A', ['A', ['A', 'N']]], ['A', ['A', ['A', ['A', 'N']]]], ['A', ['A', ['A', ['A', ['A', 'N']]]]],
+             ['A', [['A', 'A'], ['A', ['A', 'N']]]]]
+
     def cases(self, tier):
         sp = self.spec[tier]
+        seen = set()
         for k in sp['leaves']:
             for sh in prog_shapes(k):
                 for mask in range(1 << k):
                     lsh = label_leaves(sh, mask, itertools.count())
+                    seen.add(repr(lsh))
                     for env in sp['envs']:
                         yield dict(prog=lsh, env=env)
+        focus = self.FOCUS if tier == 'thorough' else self.FOCUS[:1]
+        for lsh in focus:
+            if repr(lsh) not in seen:
+                for op0 in ALPHABET:          # split by the first atom so that the shards run in parallel
+                    yield dict(prog=lsh, env=sp['envs'][-1], op0=op0)
 
     def sym_inputs(self, case):
         import itertools as it
@@ -294,6 +305,8 @@ class CoreEval(Harness):
         for b in inp['atoms']:
             if b.c is None:
                 eng.assume(z3.Or(*[b.e == v for v in ALPHABET]))
+        if case.get('op0') is not None and inp['atoms'] and inp['atoms'][0].c is None:
+            eng.assume(inp['atoms'][0].e == case['op0'])
         prog = build_prog(case['prog'], iter(inp['atoms']))
         env = build_tree(case['env'], iter(inp['env']))
         alloc = Ref(Cell(Struct('Allocator', [])))
@@ -338,8 +351,12 @@ class CoreEval(Harness):
     def vectors(self, case, rnd):
         na = count_a(case['prog'])
         ne = count_leaves(case['env'])
-        return [dict(atoms=[rnd.choice(ALPHABET) for _ in range(na)], env=[[rnd.choice([0, 1, 2, 0x7f, 0x80, 0xff])] for _ in range(ne)])
-                for _ in range(3)]
+        vs = [dict(atoms=[rnd.choice(ALPHABET) for _ in range(na)], env=[[rnd.choice([0, 1, 2, 0x7f, 0x80, 0xff])] for _ in range(ne)])
+              for _ in range(3 if case.get('op0') is None else 1)]
+        if case.get('op0') is not None:
+            for v in vs:
+                v['atoms'][0] = case['op0']
+        return vs
 
     def witness_classes(self, case, inp, out):
         return [('consensus_ok', z3.BoolVal(out['cons'].variant == 'Ok')), ('consensus_err', z3.BoolVal(out['cons'].variant != 'Ok'))]
